@@ -519,7 +519,7 @@ def gen_history(rng, Tmax):
     """Wave systems that appear, drift, cross and disappear, placed into partition slots."""
     P = rng.choice([1, 2, 3, 3, 4, 5, 6])
     T = rng.choice([2, 2, 3, 4, 5, 8, 12]) if rng.random() < 0.5 else rng.randint(2, Tmax)
-    dt = rng.choice([1800, 3600, 3600, 10800, 21600])
+    dt = rng.choice([1800, 3600, 3600, 10800, 21600, 86400, 129600])  # up to daily and 36-hourly series
     distance = rng.choice([1e6, 1e6, 5e5, 2e6, 1e5])
     scaling = rng.choice([1, 1, 1, 0.9, 1.1, 2])
     ddpm_sea = rng.choice([30, 30, 20, 45, 10, 25.5])
